@@ -40,12 +40,12 @@ def write_fasta(fp: str, seqs: dict[str, str], width: int = 60) -> None:
     pysam.faidx(fp)
 
 
-def vcf_text(contigs: dict[str, int], records: list[dict], info_tags: list[str]) -> str:
+def vcf_text(contigs: dict[str, int], records: list[dict], info_tags: list[str], tag_types: dict | None = None) -> str:
     lines = ['##fileformat=VCFv4.2']
     for c, n in contigs.items():
         lines.append(f'##contig=<ID={c},length={n}>')
     for t in info_tags:
-        lines.append(f'##INFO=<ID={t},Number=1,Type=String,Description="{t}">')
+        lines.append(f'##INFO=<ID={t},Number=1,Type={(tag_types or {}).get(t, "String")},Description="{t}">')
     lines.append('#CHROM\tPOS\tID\tREF\tALT\tQUAL\tFILTER\tINFO')
     for r in records:
         alts = r.get('alts')
@@ -142,7 +142,7 @@ def materialise(d: dict, root: str, out_name: str = 'out') -> list[str]:
                 if not v.get('missing'):
                     tags = list(v.get('declared_tags') if v.get('declared_tags') is not None else
                                 ([v['id_tag']] if v.get('id_tag') else []))
-                    _write(fp, vcf_text(contig_lens, both(v['records']), tags))
+                    _write(fp, vcf_text(contig_lens, both(v['records']), tags, {v['id_tag']: v['id_type']} if v.get('id_tag') and v.get('id_type') else None))
                 man.append([v['alias'], v.get('id_tag') or '', fp])
             _write(os.path.join(root, 'manifest.csv'), ''.join(','.join(r) + '\n' for r in man))
             argv += ['--vcf', os.path.join(root, 'manifest.csv')]
